@@ -1,7 +1,7 @@
 ----------------------------- MODULE MC_Duration -----------------------------
 EXTENDS DurationMachine, MC_Duration_sets, TLC, Json
 NoCands == {}
-MCRoundOpts == {o \in [lg : {"day", "hour", "minute", "second", "nanosecond"}, sm : {"day", "hour", "minute", "second", "millisecond", "nanosecond"}, inc : {1, 2, 3, 5, 8, 30}, mode : {"halfExpand", "ceil", "floor", "trunc", "halfEven"}] :
+MCRoundOpts == {o \in [lg : {"day", "hour", "minute", "second", "nanosecond"}, sm : {"day", "hour", "minute", "second", "millisecond", "nanosecond"}, inc : {1, 2, 3, 5, 8, 30}, mode : {"halfExpand", "ceil", "floor", "trunc", "halfEven", "halfTrunc"}] :
                   /\ UnitLe(o.sm, o.lg)
                   /\ (o.sm = "hour" => o.inc \in {1, 2, 3, 8}) /\ (o.sm = "day" => o.inc \in {1, 2, 5})
                   \* (8 h: three multiples a day - the parity of a multiple differs between the day and the total)
